@@ -906,6 +906,10 @@ class Analysis:
             if pk in self.refs:
                 pk = self.refs[pk]
                 continue
+            if pk[1] and pk[1][0] == ('deref', ) and (pk[0], ()) in getattr(self, 'ref_alias', {}):
+                # `*r` where r is a moved copy of the reference q: the same place as `*q`
+                pk = (self.ref_alias[(pk[0], ())][0], pk[1])
+                continue
             if pk[1] and pk[1][0] == ('deref', ) and (pk[0], ()) in self.refs:
                 tgt = self.refs[(pk[0], ())]
                 pk = (tgt[0], tgt[1] + pk[1][1:])
@@ -1060,6 +1064,7 @@ class Analysis:
     def run(self):
         fn = self.fn
         self.refs = {}
+        self.ref_alias = {}  # reference local -> the reference local it is a moved copy of
         self.copy_src = {}
         self.len_src = {}
         # pre-pass: temps that are plain copies of a longer-lived place (so refinements flow back)
@@ -1090,6 +1095,7 @@ class Analysis:
                         if lt['k'] in ('ref', 'ptr') and place_key(s['lhs']) not in self.refs:
                             # a moved / unsized copy of a reference points where the original points
                             self.refs[place_key(s['lhs'])] = place_key(p)
+                            self.ref_alias[place_key(s['lhs'])] = place_key(p)
         for bi in fn.reachable():
             for s in fn.blocks[bi]['stmts']:
                 if s['k'] == 'assign' and not s['lhs']['p'] and s['rv']['k'] == 'agg' and s['rv'].get('ak') == 'closure':
